@@ -45,6 +45,18 @@ RULE = (
     "scale: 'never returns a higher objective than it started from' holds for every termination reason.  Guesses "
     "with entries exactly at the lower bound 0 or next to it (1e-300, 1e-12).  reuse also with ONE data object edited "
     "in place between the solves (same-size problems).  "
+    "round 4 - solve/* also with every function_sampler x gradient_sampler pair of GCPSampler on sparse data (counts as int / "
+    "StratifiedCount / default).  report/*: one request run quiet (printitn 0 / -1 / False) and verbose (solver printitn 1..7, "
+    "gcp_opt printitn, SciPy's silent disp / iprint, root logger at DEBUG / INFO with a NullHandler and logging.disable lifted) "
+    "from the same np seed: guess, model, traces and counters identical bit for bit; the verbose run judged by the solve clauses.  "
+    "present/*: one request in two presentations (NumPy int scalars as counts / rank / limits, int32 / uint8 / uint16 / uint64 "
+    "subscripts, float32 values that are exactly representable, read-only buffers handed over with copy=False, guess as tuple / "
+    "read-only arrays, mask as ndarray): same sample / same result bit for bit (Adam: first epoch to 1e-9, float32 data: "
+    "single-precision bound) and the second presentation satisfies the property's clauses; sampler/huge also with NumPy counts and "
+    "int32 subscripts.  rejected/*: histories on one optimizer / sampler object in which valid requests are preceded by rejected ones "
+    "(gcp_opt argument checks, model not fitting the data, the caller's objective / gradient / sampler / callback raising in "
+    "mid-solve; ill-formed GCPSampler configurations, draws from a tensor of the wrong kind, direct sampler calls that cannot be "
+    "served): operands bit for bit unchanged, every later valid request equals that of a fresh object.  "
     "Non-trivial: sampler case with both strata non-empty and >= 2 samples; solve with >= 1 failed epoch; "
     "sequence with >= 2 solves of different size."
 )
@@ -63,6 +75,12 @@ ASSUMPTIONS = [
     "pattern a new sampler is built (on the same, edited object); after a value-only edit the old sampler is kept",
     "L-BFGS-B: a start whose objective is not finite (exp overflow for bernoulli_logit far off scale) is skipped; when "
     "SciPy reports an abnormal termination, final_f is SciPy's value of the last trial point and is not compared",
+    "rejected/*: whether an ill-formed request is rejected is not demanded (the property does not say); demanded is only that "
+    "after a request that raised, operands and the optimizer / sampler object behave as before",
+    "present/solve: Adam computes beta ** iterations - with epoch_iters a NumPy integer NumPy's pow replaces Python's (last-bit "
+    "differences), so Adam runs are compared bit for bit only up to the starting value; float32 data: single-precision bounds "
+    "(tolerances x eps32/eps64), no bitwise agreement demanded",
+    "SciPy's iprint >= 0 / disp > 0 print from Fortran to the process's stdout and are not exercised",
     "sparse data with explicitly stored zeros is not generated for the samplers: whether a stored zero belongs to "
     "the 'nonzero' stratum (stratification is by stored entries) is not settled by the property",
 ]
@@ -675,7 +693,11 @@ def _huge_case(draw, tier):
     return dict(shape=shape, subs=subs, vals=[float(draw(st.integers(1, 9))) for _ in subs], nnz=len(subs),
                 kind=draw(st.sampled_from(["uniform", "semistrat", "stratified", "stratified", "gcp-default", "gcp-counts"])),
                 num_nonzeros=draw(st.integers(0, 8)), num_zeros=draw(st.sampled_from([1, 2, 3, 4, 5, 8, 16, 100])),
-                samples=draw(st.integers(1, 40)), np_seed=draw(st.integers(0, 2**31 - 1)))
+                samples=draw(st.integers(1, 40)), np_seed=draw(st.integers(0, 2**31 - 1)),
+                # (round 4) how the caller holds the counts and the subscripts: Python ints / int64, or NumPy int64 / int32
+                # scalars and int32 subscripts (SciPy COO coordinates) where every mode length fits
+                cnt_dtype=draw(st.sampled_from([None, None, None, "int64", "int32"])),
+                subs_dtype=draw(st.sampled_from(["int64", "int64", "int32"])) if max(shape) <= 2**31 - 1 else "int64")
 
 
 def _cells(case):
@@ -700,10 +722,16 @@ def sampler_huge(ctx, case):
     ctx.label("kind-" + case["kind"], "cells<2^63" if fits else "cells>=2^63", f"order{N}",
               "mode>2^53" if max(shape) > 2**53 else "modes<=2^53")
     ctx.nt = True
-    S = ttb.sptensor(np.array(case["subs"], dtype=np.int64).reshape(nnz, N), np.array(case["vals"]).reshape(nnz, 1), tuple(shape))
+    S = ttb.sptensor(np.array(case["subs"], dtype=case.get("subs_dtype", "int64")).reshape(nnz, N), np.array(case["vals"]).reshape(nnz, 1), tuple(shape))
     kind, knz, kz = case["kind"], case["num_nonzeros"], case["num_zeros"]
+    samples = case["samples"]
+    if case.get("cnt_dtype"):
+        cn = _NPINT[case["cnt_dtype"]]
+        knz, kz, samples = cn(knz), cn(kz), cn(samples)
+    ctx.label("counts-" + str(case.get("cnt_dtype") or "python-int"), "subs-" + str(S.subs.dtype))
 
     def judge(out, style, k, tag=""):
+        k = int(k)
         subs, vals, wts, n = _check_triple(ctx, out, N)
         ok = all(0 <= int(x) < m for row in subs for x, m in zip(row, shape))
         ctx.check(ok, tag + "subscripts-inside-tensor")
@@ -729,7 +757,7 @@ def sampler_huge(ctx, case):
     np.random.seed(case["np_seed"])
     if kind == "uniform":
         with ctx.sut("samplers.uniform"):
-            out = samplers.uniform(S, case["samples"])
+            out = samplers.uniform(S, samples)
         judge(out, "uniform", 0)
     elif kind == "semistrat":
         with ctx.sut("samplers.semistrat"):
@@ -1124,21 +1152,36 @@ def _stochastic_case(draw, tier, kind):
                                              "gcp-uniform-grad"] * 2 + ["gcp-uniform-func"]))
         c["nf"] = [draw(st.integers(1, 2 * nnz)), draw(st.integers(1, n))]
         c["ng"] = [draw(st.integers(1, nnz + 1)), draw(st.integers(1, n))]
+        if draw(st.sampled_from([False, False, True])):
+            # every function_sampler x gradient_sampler combination (None = the default kind), the counts given as
+            # one int, as a StratifiedCount (stratified kinds) or left to the defaults
+            c["sampler"] = "gcp-combo"
+            c["fs"] = draw(st.sampled_from([None, "STRATIFIED", "UNIFORM", "UNIFORM"]))
+            c["gs"] = draw(st.sampled_from([None, "STRATIFIED", "SEMISTRATIFIED", "SEMISTRATIFIED", "UNIFORM"]))
+            for key, strat, two in (("fn", c["fs"] != "UNIFORM", c["nf"]), ("gn", c["gs"] != "UNIFORM", c["ng"])):
+                how = draw(st.sampled_from(["default", "int", "count", "count"] if strat else ["default", "int", "int"]))
+                c[key] = None if how == "default" else (two[0] + (0 if strat else two[1]) if how == "int" else list(two))
     c["objective_as"] = draw(st.sampled_from(["tuple", "enum"]))
     c["np_seed"] = draw(st.integers(0, 2**31 - 1))
     return c
 
 
-def _mk_sampler(case, data, A):
+def _mk_sampler(case, data, A, cnt=int):
+    """cnt: how a count inside a StratifiedCount is presented (int / a NumPy integer type)"""
     s, nf, ng = case["sampler"], case["nf"], case["ng"]
     if s.startswith("own-"):
         return OwnSampler(A, s[4:], nf, ng)
     if s == "gcp-default":
         return GCPSampler(data)
+    if s == "gcp-combo":
+        fs = None if case["fs"] is None else getattr(Samplers, case["fs"])
+        gs = None if case["gs"] is None else getattr(Samplers, case["gs"])
+        mk = lambda x: StratifiedCount(num_nonzeros=cnt(x[0]), num_zeros=cnt(x[1])) if isinstance(x, list) else x  # noqa: E731
+        return GCPSampler(data, fs, mk(case["fn"]), gs, mk(case["gn"]))
     if s == "gcp-uniform":
         return GCPSampler(data, Samplers.UNIFORM, nf[0], Samplers.UNIFORM, ng[0])
-    fcount = StratifiedCount(num_nonzeros=nf[0], num_zeros=nf[1])
-    gcount = StratifiedCount(num_nonzeros=ng[0], num_zeros=ng[1])
+    fcount = StratifiedCount(num_nonzeros=cnt(nf[0]), num_zeros=cnt(nf[1]))
+    gcount = StratifiedCount(num_nonzeros=cnt(ng[0]), num_zeros=cnt(ng[1]))
     if s == "gcp-stratified":
         return GCPSampler(data, Samplers.STRATIFIED, fcount, Samplers.STRATIFIED, gcount)
     if s == "gcp-semistrat":
@@ -1159,7 +1202,8 @@ def _run_gcp_opt(ctx, what, data, rank, objective, opt, init, **kw):
     """gcp_opt under ctx.sut, except that the documented divergence guard of the stochastic solvers and a
     sampler returning an inconsistent sample (reported by the sampler cells) end the case quietly."""
     try:
-        return ttb.gcp_opt(data, rank, objective, opt, init=init, printitn=0, **kw)
+        kw.setdefault("printitn", 0)
+        return ttb.gcp_opt(data, rank, objective, opt, init=init, **kw)
     except _BadSample:
         ctx.label("sampler-returned-inconsistent-sample")
         return None
@@ -1174,26 +1218,47 @@ def _run_gcp_opt(ctx, what, data, rank, objective, opt, init, **kw):
             raise
 
 
-def _stochastic_body(ctx, case):
+def _stochastic_run(ctx, case, a, gcp_printitn=0, present=None, what="gcp_opt", labels=False):
+    """one stochastic solve through gcp_opt, every object built afresh, the sampler wrapped in a Recorder.
+    present: optional callable (data, init, solver-args) -> (data, init, solver-args, rank, count-type) giving the same
+    request in another presentation.  Returns None (diverged / inconsistent sample, labelled) or a dict."""
     name, X, data, init = _build_problem(case)
-    a = case["solver"]
     with ctx.sut("fg_setup.setup"):
         fh, gh, lb = fg_setup.setup(H.objective(name), None, None)
     as_enum = case["objective_as"] == "enum" and _domain_ok_for_enum(name, X, case["holder"])
     objective = H.objective(name) if as_enum else (fh, gh, lb)
-    ctx.label("loss-" + name, "solver-" + a["kind"], "holder-" + case["holder"], "sampler-" + case["sampler"],
-              "init-" + case["init"], f"max_iters={a['max_iters']}", f"max_fails={a['max_fails']}",
-              "objective-enum" if as_enum else "objective-tuple", f"f_est_tol={a.get('f_est_tol')}",
-              f"printitn={a.get('printitn', 0)}", "data-" + _data_dtype(data), "data-prov-" + case.get("dprov", "ctor"),
-              f"data-scale-{case.get('dscale', 1.0)}", "guess-" + case.get("gclass", "ordinary"))
+    if labels:
+        ctx.label("loss-" + name, "solver-" + a["kind"], "holder-" + case["holder"], "sampler-" + case["sampler"],
+                  "init-" + case["init"], f"max_iters={a['max_iters']}", f"max_fails={a['max_fails']}",
+                  "objective-enum" if as_enum else "objective-tuple", f"f_est_tol={a.get('f_est_tol')}",
+                  f"printitn={a.get('printitn', 0)}", "data-" + _data_dtype(data), "data-prov-" + case.get("dprov", "ctor"),
+                  f"data-scale-{case.get('dscale', 1.0)}", "guess-" + case.get("gclass", "ordinary"))
+        if case["sampler"] == "gcp-combo":
+            ctx.label(f"combo-f-{case['fs']}-g-{case['gs']}", "combo-fn-" + type(case["fn"]).__name__,
+                      "combo-gn-" + type(case["gn"]).__name__)
+    rank, cnt = case["rank"], int
+    if present is not None:
+        data, init, a, rank, cnt = present(data, init, a)
     opt = _mk_solver(a)
     with ctx.sut("GCPSampler"):
-        inner = _mk_sampler(case, data, X)
+        inner = _mk_sampler(case, data, X, cnt)
     rec = Recorder(inner)
     np.random.seed(case["np_seed"])
-    out = _run_gcp_opt(ctx, "gcp_opt", data, case["rank"], objective, opt, init, sampler=rec)
+    out = _run_gcp_opt(ctx, what, data, rank, objective, opt, init, sampler=rec, printitn=gcp_printitn)
     if out is None:
-        return
+        return None
+    return dict(out=out, rec=rec, name=name, fh=fh, lb=lb, data=data)
+
+
+def _stochastic_body(ctx, case):
+    run = _stochastic_run(ctx, case, case["solver"], labels=True)
+    if run is not None:
+        _judge_stochastic(ctx, case, case["solver"], run)
+
+
+def _judge_stochastic(ctx, case, a, run, tolx=1.0):
+    """the property's clauses on one stochastic solve (tolx widens the estimate tolerances: single-precision data)"""
+    out, rec, name, fh, lb = run["out"], run["rec"], run["name"], run["fh"], run["lb"]
     ctx.require(isinstance(out, tuple) and len(out) == 3, "gcp_opt-returns-(model,guess,info)")
     M, M0, info = out
     ctx.require(isinstance(M, ttb.ktensor) and isinstance(M0, ttb.ktensor) and isinstance(info, dict)
@@ -1225,8 +1290,10 @@ def _stochastic_body(ctx, case):
     ctx.check(all(np.all(np.isfinite(f)) for f in M.factor_matrices), "returned-model-finite")
     # estimates on the fixed function sample
     F0, tol0 = _sample_estimate(name, fh, M0, rec.fsamples[0])
+    tol0 *= tolx
     ctx.check(abs(trace[0] - F0) <= tol0, "trace-starts-at-estimate-of-initial-model", f"{trace[0]!r} vs {F0!r} tol {tol0:.3g}")
     Fb, tolb = _sample_estimate(name, fh, M, rec.fsamples[0])
+    tolb *= tolx
     ctx.check(Fb <= trace[0] + tolb + tol0, "returned-model-no-worse-than-start", f"{Fb!r} vs {trace[0]!r}")
     tmin = float(np.min(trace))
     if full_trace:
@@ -1489,6 +1556,664 @@ for _k in ("sgd", "adam", "adagrad", "lbfgsb"):
          shards=(2, 8))(_reuse_body)
 
 
+# ==========================================================================
+# round 4: reporting options / logging environment (class 13), presentations of valid arguments (class 11),
+# state after a rejected request (class 12)
+# ==========================================================================
+
+F32 = float(np.finfo(np.float32).eps)
+
+
+class _LogEnv:
+    """the root logger at DEBUG / INFO with only a NullHandler attached and logging.disable() lifted - restored on exit"""
+
+    def __init__(self, mode):
+        self.mode = mode
+
+    def __enter__(self):
+        root = logging.getLogger()
+        self.saved = (root.level, root.manager.disable, list(root.handlers))
+        if self.mode != "untouched":
+            for h in list(root.handlers):
+                root.removeHandler(h)
+            root.addHandler(logging.NullHandler())
+            root.setLevel(logging.DEBUG if self.mode == "debug" else logging.INFO)
+            logging.disable(logging.NOTSET)
+        return self
+
+    def __exit__(self, *exc):
+        root = logging.getLogger()
+        level, disabled, handlers = self.saved
+        for h in list(root.handlers):
+            root.removeHandler(h)
+        for h in handlers:
+            root.addHandler(h)
+        root.setLevel(level)
+        logging.disable(disabled)
+        return False
+
+
+_INFO_KEYS = ("f_est_trace", "step_trace", "n_epoch", "final_f", "nit", "funcalls", "warnflag", "grad")
+
+
+def _snap(out):
+    """everything a solve returned that is not a wall-clock time, copied"""
+    if out is None:
+        return "no-result"
+    M, M0, info = out
+    d = dict(model=[np.array(f, copy=True) for f in M.factor_matrices], weights=np.array(M.weights, copy=True),
+             guess=[np.array(f, copy=True) for f in M0.factor_matrices], guess_weights=np.array(M0.weights, copy=True),
+             info_keys=sorted(str(k) for k in info))
+    for k in _INFO_KEYS:
+        if k in info:
+            d[k] = np.array(info[k], copy=True)
+    if "task" in info:
+        d["task"] = info["task"].decode(errors="replace") if isinstance(info["task"], bytes) else str(info["task"])
+    return d
+
+
+def _snap_diff(a, b, skip=()):
+    """name of the first part in which two results differ (None: identical bit for bit)"""
+    if isinstance(a, str) or isinstance(b, str):
+        return None if (isinstance(a, str) and isinstance(b, str) and a == b) else "one-run-ended-without-result"
+    for k in sorted(set(a) | set(b)):
+        if k in skip:
+            continue
+        if (k in a) != (k in b):
+            return k
+        x, y = a[k], b[k]
+        if isinstance(x, list) and x and isinstance(x[0], np.ndarray):
+            same = len(x) == len(y) and all(u.shape == v.shape and np.array_equal(u, v, equal_nan=True) for u, v in zip(x, y))
+        elif isinstance(x, np.ndarray):
+            same = x.shape == y.shape and (np.array_equal(x, y, equal_nan=True) if x.dtype.kind == "f" else np.array_equal(x, y))
+        else:
+            same = x == y
+        if not same:
+            return k
+    return None
+
+
+# --------------------------------------------------------------------------
+# class 13: quiet and verbose runs of the same request
+# --------------------------------------------------------------------------
+
+
+def _report_opts(draw, kind):
+    r = dict(printitn=draw(st.sampled_from([1, 1, 2, 3, 7, True])), gcp_printitn=draw(st.sampled_from([0, 1, 1, 4])),
+             quiet=draw(st.sampled_from([0, 0, -1, False])), log=draw(st.sampled_from(["debug", "debug", "info"])))
+    if kind == "lbfgsb":  # SciPy's own reporting switches (only their silent settings: SciPy prints from Fortran)
+        r["disp"] = draw(st.sampled_from([None, 0]))
+        r["iprint"] = draw(st.sampled_from([None, -1]))
+    return r
+
+
+@st.composite
+def _report_case(draw, tier, kind):
+    c = draw(_lbfgsb_case(tier)) if kind == "lbfgsb" else draw(_stochastic_case(tier, kind))
+    if kind != "lbfgsb" and draw(st.booleans()):  # make failed epochs and several epochs common
+        c["solver"]["max_iters"] = draw(st.integers(3, 6))
+        c["solver"]["max_fails"] = draw(st.integers(1, 3))
+    c["report"] = _report_opts(draw, kind)
+    return c
+
+
+def _lbfgsb_run(ctx, case, sv, gcp_printitn=0, present=None, what="gcp_opt"):
+    name, X, data, init = _build_problem(case)
+    with ctx.sut("fg_setup.setup"):
+        fh, gh, lb = fg_setup.setup(H.objective(name), None, None)
+    W = None if case["mask"] is None else gen.arr_F(case["shape"], case["mask"])
+    Xw = X if W is None else X * W
+    as_enum = case["objective_as"] == "enum" and _domain_ok_for_enum(name, Xw, "dense")
+    objective = H.objective(name) if as_enum else (fh, gh, lb)
+    mask = None if W is None else ttb.tensor(H.typed(W, case.get("mdtype")).copy(order="F"), tuple(case["shape"]))
+    rank = case["rank"]
+    if present is not None:
+        data, init, sv, rank, mask = present(data, init, sv, mask)
+    kw = {k: sv[k] for k in ("m", "maxiter", "maxfun", "factr", "pgtol", "maxls", "disp", "iprint") if sv.get(k) is not None}
+    opt = LBFGSB(**kw)
+    np.random.seed(case["np_seed"])
+    out = _run_gcp_opt(ctx, what, data, rank, objective, opt, init, mask=mask, printitn=gcp_printitn)
+    return None if out is None else dict(out=out, name=name, fh=fh, lb=lb, Xw=Xw, W=W)
+
+
+def _report_body(ctx, case):
+    """the same request quiet (printitn <= 0, logging as the harness leaves it) and verbose (printitn > 0 in the solver
+    and / or in gcp_opt, root logger at DEBUG / INFO): same guess, model and traces bit for bit; the verbose run is
+    judged by the property's own clauses"""
+    a = dict(case["solver"])
+    r = case["report"]
+    kind = a["kind"]
+    ctx.label("solver-" + kind, f"printitn={r['printitn']!r}", f"gcp-printitn={r['gcp_printitn']}", f"quiet={r['quiet']!r}", "log-" + r["log"])
+    if kind == "lbfgsb":
+        run = lambda sv, gp: _lbfgsb_run(ctx, case, sv, gp)  # noqa: E731
+        quiet, loud = dict(a), dict(a, disp=r.get("disp"), iprint=r.get("iprint"))
+        ctx.label(f"disp={r.get('disp')}", f"iprint={r.get('iprint')}")
+    else:
+        run = lambda sv, gp: _stochastic_run(ctx, case, sv, gp)  # noqa: E731
+        quiet, loud = dict(a, printitn=r["quiet"]), dict(a, printitn=r["printitn"])
+        ctx.label("sampler-" + case["sampler"])
+        if case["sampler"] == "gcp-combo":
+            ctx.label(f"combo-f-{case['fs']}-g-{case['gs']}")
+    base = run(quiet, 0)
+    sb = _snap(None if base is None else base["out"])
+    with _LogEnv("untouched"):
+        v1 = run(loud, r["gcp_printitn"])
+    with _LogEnv(r["log"]):
+        v2 = run(quiet, 0)
+        v3 = run(loud, max(1, r["gcp_printitn"]))
+    for tag, v in (("printitn", v1), ("root-logger-level", v2), ("printitn-and-root-logger-level", v3)):
+        d = _snap_diff(sb, _snap(None if v is None else v["out"]))
+        ctx.check(d is None, f"same-result-whatever-{tag}", f"differs in: {d}")
+    if v3 is None:
+        ctx.label("no-result")
+        return
+    if kind == "lbfgsb":
+        M, M0, info = v3["out"]
+        F1, tol1 = _objective(v3["name"], v3["fh"], M, v3["Xw"], v3["W"])
+        F0, tol0 = _objective(v3["name"], v3["fh"], M0, v3["Xw"], v3["W"])
+        ctx.nt = bool(np.isfinite(F0)) and F1 < F0 - tol0 - tol1
+        if np.isfinite(F0):
+            ctx.check(F1 <= F0 + tol0 + tol1, "lbfgsb-never-returns-higher-objective", f"{F1!r} vs start {F0!r}")
+    else:
+        _judge_stochastic(ctx, case, loud, v3)
+
+
+for _k in ("sgd", "adam", "adagrad", "lbfgsb"):
+    cell(f"C13/report/{_k}", strategy=(lambda kk: lambda tier: _report_case(tier, kk))(_k), quick=60, thorough=600,
+         shards=(2, 8))(_report_body)
+
+
+# --------------------------------------------------------------------------
+# class 11: the same request in two presentations
+# --------------------------------------------------------------------------
+
+_NPINT = {"int64": np.int64, "int32": np.int32, "intp": np.intp, "int16": np.int16}
+
+
+def _f32_values(vals):
+    return [float(np.float32(v)) for v in vals]
+
+
+@st.composite
+def _present_sampler_case(draw, tier):
+    c = draw(_gcpsampler_case(tier))
+    c["f32"] = c["vdtype"] == "float64" and draw(st.booleans())
+    if c["f32"]:  # values a float32 array holds exactly (both presentations hold the same numbers)
+        c["vals"] = _f32_values(c["vals"])
+    c["cnt_dtype"] = draw(st.sampled_from(["int64", "int64", "int32", "intp", "int16"]))
+    c["subs_dtype"] = draw(st.sampled_from(["int64", "int32", "int32", "uint8", "uint16", "uint64"]))
+    c["readonly"] = draw(st.booleans())
+    c["direct"] = draw(st.sampled_from(["uniform", "stratified", "semistrat"]))
+    c["direct_counts"] = [draw(st.integers(0, 6)), draw(st.integers(0, 6))]
+    c["seeds"] = [draw(st.integers(0, 2**31 - 1)) for _ in range(3)]
+    return c
+
+
+def _ro(a, readonly):
+    a = np.array(a, copy=True, order="K")
+    if readonly:
+        a.flags.writeable = False
+    return a
+
+
+def _alt_data(data, subs_dtype="int64", f32=False, readonly=False):
+    """the same tensor presented differently: subscripts in another integer dtype, values in float32 (the caller made
+    sure they are exactly representable), buffers read-only (handed over with copy=False).  None: the constructor
+    did not produce the same tensor (judged by other properties)."""
+    shape = tuple(int(n) for n in data.shape)
+    try:
+        if isinstance(data, ttb.sptensor):
+            subs = np.asarray(data.subs)
+            if subs.size and int(subs.max()) > np.iinfo(subs_dtype).max:
+                subs_dtype = "int64"
+            vals = np.asarray(data.vals)
+            T = ttb.sptensor(_ro(subs.astype(subs_dtype), readonly), _ro(vals.astype(np.float32) if f32 else vals, readonly), shape, copy=False)
+        else:
+            arr = np.asarray(data.data)
+            T = ttb.tensor(_ro(arr.astype(np.float32) if f32 else arr, readonly), shape, copy=False)
+            # (a different memory layout changes the order of summation in the solvers: not the same request bit for bit)
+            if any(T.data.flags[f] != arr.flags[f] for f in ("C_CONTIGUOUS", "F_CONTIGUOUS")):
+                return None
+        if tuple(int(n) for n in T.shape) != shape or not np.array_equal(np.asarray(ref.den(T), dtype=float), np.asarray(ref.den(data), dtype=float)):
+            return None
+        return T
+    except Exception:  # noqa: BLE001
+        return None
+
+
+def _consistent(s):
+    return isinstance(s, tuple) and len(s) == 3 and isinstance(s[0], np.ndarray) and s[0].ndim == 2 and s[0].shape[0] == np.size(s[1]) == np.size(s[2])
+
+
+@cell("C13/present/sampler", strategy=_present_sampler_case, quick=150, thorough=1500, shards=(1, 4))
+def present_sampler(ctx, case):
+    """a sampler request in the library's favourite form (Python int counts, int64 subscripts, float64 / int values,
+    writable buffers) and as ordinary callers make it (NumPy integer scalars as counts, int32 / unsigned subscripts as
+    SciPy COO matrices carry them, float32 values, read-only buffers): same random state, same sample - and the sample
+    of the second presentation satisfies the sampler clauses"""
+    A = _dense_of(case)
+    dense = case["holder"] == "dense"
+    shape = tuple(case["shape"])
+    cn = _NPINT[case["cnt_dtype"]]
+
+    def mk_canon():
+        if dense:
+            return ttb.tensor(H.typed(A, case.get("vdtype")).copy(order="F"), shape)
+        c0 = dict(case, dprov="ctor")
+        return _build_sp(c0)
+
+    canon = mk_canon()
+    alt = _alt_data(canon, case["subs_dtype"], case["f32"], case["readonly"])
+    if alt is None:
+        ctx.skip("constructor did not take the presentation")
+    ctx.label("holder-" + case["holder"], "counts-" + case["cnt_dtype"], "subs-" + (case["subs_dtype"] if not dense else "n/a"),
+              "vals-" + str((alt.data if dense else alt.vals).dtype), "read-only" if case["readonly"] else "writable",
+              "direct-" + case["direct"], f"f-{case['fs']}", f"g-{case['gs']}")
+    ctx.nt = case["nnz"] >= 1 and case["nzeros"] >= 1
+
+    def pair(what, fn_c, fn_a, seed, kind, k):
+        want = _draw_or_raise(fn_c, seed)
+        if isinstance(want, str):  # (cannot be served, e.g. zeros of a full tensor: judged by the sampler cells)
+            ctx.label("request-not-servable")
+            return
+        np.random.seed(seed)
+        with ctx.sut(what):
+            got = fn_a()
+        ctx.check(_same_sample(got, want), "same-sample-in-both-presentations", what)
+        if _consistent(want) and _consistent(got):
+            subs, vals, wts, n = _check_triple(ctx, got, A.ndim)
+            if kind == "uniform":
+                _check_gcp_sample(ctx, case, A, got, "uniform", None, what)
+            else:
+                kk = k if k is not None else int(np.count_nonzero(vals))
+                _check_stratified(ctx, A, subs, vals, wts, kk, confirm_zeros=(kind == "stratified"))
+        else:
+            ctx.label("short-zero-sample")
+
+    knz, kz = case["direct_counts"]
+    direct = "uniform" if dense else case["direct"]
+    if direct == "uniform":
+        pair("samplers.uniform", lambda: samplers.uniform(canon, knz + kz), lambda: samplers.uniform(alt, cn(knz + kz)),
+             case["seeds"][0], "uniform", None)
+    elif direct == "stratified" and not (case["nzeros"] == 0 and kz > 0):
+        idx = _nz_idx(case)
+        idx_a = _ro(idx.astype(np.int32), case["readonly"])
+        pair("samplers.stratified", lambda: samplers.stratified(canon, idx, knz, kz),
+             lambda: samplers.stratified(alt, idx_a, cn(knz), cn(kz)), case["seeds"][0], "stratified", knz)
+    elif direct == "semistrat":
+        pair("samplers.semistrat", lambda: samplers.semistrat(canon, knz, kz), lambda: samplers.semistrat(alt, cn(knz), cn(kz)),
+             case["seeds"][0], "semistrat", knz)
+    # GCPSampler: (a) data in the other presentation, (b) counts as NumPy integer scalars
+    fs = None if case["fs"] is None else getattr(Samplers, case["fs"])
+    gs = None if case["gs"] is None else getattr(Samplers, case["gs"])
+    kw = {} if case.get("over_sample_rate") is None else dict(over_sample_rate=case["over_sample_rate"])
+    npc = lambda x: (StratifiedCount(num_nonzeros=cn(x[0]), num_zeros=cn(x[1])) if isinstance(x, list)  # noqa: E731
+                     else (x if x is None else cn(x)))
+    f_kind = "uniform" if (dense or case["fs"] == "UNIFORM") else "stratified"
+    g_kind = "uniform" if dense else {"SEMISTRATIFIED": "semistrat"}.get(case["gs"], "stratified")
+    try:
+        smp_c = GCPSampler(canon, fs, _mk_count(case["fn"]), gs, _mk_count(case["gn"]), case["max_iters"], **kw)
+    except Exception:  # noqa: BLE001  (judged by C13/sampler/gcpsampler)
+        return
+    with ctx.sut("GCPSampler(data-in-other-presentation)"):
+        smp_a = GCPSampler(alt, fs, _mk_count(case["fn"]), gs, _mk_count(case["gn"]), np.int64(case["max_iters"]), **kw)
+    for tag, kind, seed in (("function", f_kind, case["seeds"][1]), ("gradient", g_kind, case["seeds"][2])):
+        call = (lambda s_, d_: s_.function_sample(d_)) if tag == "function" else (lambda s_, d_: s_.gradient_sample(d_))
+        k = int(np.size(smp_c.crng)) if kind == "semistrat" else None
+        pair(f"GCPSampler.{tag}_sample(data-in-other-presentation)", lambda: call(smp_c, canon), lambda: call(smp_a, alt), seed, kind, k)
+    ctx.check(np.array_equal(np.asarray(ref.den(alt), dtype=float), A), "sampler-leaves-data")
+    if case["fn"] is None and case["gn"] is None:
+        return
+    ctx.label("numpy-int-counts-to-GCPSampler")
+    with ctx.sut("GCPSampler(numpy-int-counts)"):
+        smp_n = GCPSampler(canon, fs, npc(case["fn"]), gs, npc(case["gn"]), case["max_iters"], **kw)
+    for tag, kind, seed in (("function", f_kind, case["seeds"][1]), ("gradient", g_kind, case["seeds"][2])):
+        call = (lambda s_, d_: s_.function_sample(d_)) if tag == "function" else (lambda s_, d_: s_.gradient_sample(d_))
+        k = int(np.size(smp_c.crng)) if kind == "semistrat" else None
+        pair(f"GCPSampler.{tag}_sample(numpy-int-counts)", lambda: call(smp_c, canon), lambda: call(smp_n, canon), seed, kind, k)
+
+
+@st.composite
+def _present_solve_case(draw, tier):
+    kind = draw(st.sampled_from(["sgd", "adam", "adagrad", "lbfgsb"]))
+    c = draw(_lbfgsb_case(tier)) if kind == "lbfgsb" else draw(_stochastic_case(tier, kind))
+    f32 = draw(st.sampled_from([False, False, True]))
+    if f32:
+        c["data"] = _f32_values(c["data"])
+        c["ddtype"] = "float64"
+    c["present"] = dict(int_dtype=draw(st.sampled_from(["int64", "int32"])), readonly=draw(st.booleans()),
+                        subs_dtype=draw(st.sampled_from(["int64", "int32", "int32", "uint16"])), f32=f32,
+                        init_as=draw(st.sampled_from(["same", "tuple", "read-only"])),
+                        mask_as=draw(st.sampled_from(["tensor", "ndarray", "read-only-ndarray"])))
+    return c
+
+
+def _alt_init(init, how):
+    if isinstance(init, list) and how != "same":
+        fm = [_ro(f, how == "read-only") for f in init]
+        return tuple(fm) if how == "tuple" else fm
+    return init
+
+
+@cell("C13/present/solve", strategy=_present_solve_case, quick=100, thorough=1000, shards=(2, 8))
+def present_solve(ctx, case):
+    """one solve request twice: as the other cells make it, and with rank / epoch and iteration limits / sample counts
+    as NumPy integer scalars, data with int32 / uint16 subscripts or read-only buffers, the factor guess as a tuple or
+    as read-only arrays, the mask as an ndarray: same guess, model and trace bit for bit.  Data held in float32
+    (values exactly representable): the starting objective agrees to a single-precision bound and the property's own
+    clauses hold with single-precision tolerances."""
+    a = dict(case["solver"])
+    pr = case["present"]
+    kind = a["kind"]
+    it = _NPINT[pr["int_dtype"]]
+    ctx.label("solver-" + kind, "ints-" + pr["int_dtype"], "read-only" if pr["readonly"] else "writable", "init-as-" + pr["init_as"],
+              "holder-" + case["holder"], "float32-data" if pr["f32"] else "data-dtype-kept")
+    state = {}
+
+    def alt_data(data):
+        T = _alt_data(data, pr["subs_dtype"], pr["f32"], pr["readonly"])
+        state["alt"] = T is not None
+        if T is not None and isinstance(T, ttb.sptensor):
+            ctx.label("subs-" + str(T.subs.dtype))
+        return data if T is None else T
+
+    if kind == "lbfgsb":
+        def present(data, init, sv, mask):
+            sv = dict(sv, maxiter=it(sv["maxiter"]))
+            # (with init='random' gcp_opt scales the guess by the norm of the data, which it masks only for a tensor mask:
+            #  the ndarray presentation is compared for explicit guesses)
+            #  and for data in an F-ordered buffer (otherwise the masked product has another layout than the data: the
+            #  objective is summed in another order and agrees only to rounding)
+            if mask is not None and pr["mask_as"] != "tensor" and case["init"] != "random" and data.data.flags["F_CONTIGUOUS"]:
+                ctx.label("mask-as-" + pr["mask_as"])
+                mask = _ro(np.asarray(mask.data), pr["mask_as"] == "read-only-ndarray")
+            return alt_data(data), _alt_init(init, pr["init_as"]), sv, it(case["rank"]), mask
+        base = _lbfgsb_run(ctx, case, a)
+        alt = _lbfgsb_run(ctx, case, a, present=present, what="gcp_opt(other-presentation)")
+    else:
+        def present(data, init, sv):
+            sv = dict(sv, max_iters=it(sv["max_iters"]), epoch_iters=it(sv["epoch_iters"]), max_fails=it(sv["max_fails"]),
+                      rate=np.float64(sv["rate"]))
+            return alt_data(data), _alt_init(init, pr["init_as"]), sv, it(case["rank"]), it
+        ctx.label("sampler-" + case["sampler"])
+        base = _stochastic_run(ctx, case, a)
+        alt = _stochastic_run(ctx, case, a, present=present, what="gcp_opt(other-presentation)")
+    if not state.get("alt", False):
+        ctx.label("data-presentation-not-taken")
+    sb, sa = _snap(None if base is None else base["out"]), _snap(None if alt is None else alt["out"])
+    if isinstance(sb, str) or isinstance(sa, str):
+        # (a run that diverged or met an inconsistent sample: in exact arithmetic both do; with float32 data not demanded)
+        if not pr["f32"]:
+            ctx.check(isinstance(sb, str) and isinstance(sa, str), "same-result-in-both-presentations", "one run ended without result")
+        return
+    ctx.nt = True
+    if not (pr["f32"] and state.get("alt", False)):
+        if kind == "adam":
+            # Adam raises beta to the number of iterations: with epoch_iters a NumPy integer NumPy's pow is used instead
+            # of Python's (they may differ in the last bit).  Demanded: the same guess and starting value bit for bit,
+            # the first epoch to 1e-9, and the property's own clauses for the second presentation
+            d = _snap_diff({k: sb[k] for k in ("guess", "guess_weights")}, {k: sa[k] for k in ("guess", "guess_weights")})
+            ta, tb = np.ravel(sa["f_est_trace"]), np.ravel(sb["f_est_trace"])
+            if d is None and not (len(ta) >= 1 and len(tb) >= 1 and (ta[0] == tb[0] or (np.isnan(ta[0]) and np.isnan(tb[0])))):
+                d = "f_est_trace[0]"
+            if d is None and len(ta) >= 2 and len(tb) >= 2 and np.isfinite(ta[1]) and np.isfinite(tb[1]):
+                if abs(ta[1] - tb[1]) > 1e-9 * max(abs(tb[1]), abs(tb[0])):
+                    d = "f_est_trace[1]"
+            ctx.check(d is None, "same-result-in-both-presentations", f"differs in: {d}")
+            _judge_stochastic(ctx, case, a, alt)
+            return
+        d = _snap_diff(sb, sa)
+        ctx.check(d is None, "same-result-in-both-presentations", f"differs in: {d}")
+        return
+    # float32 data: what one evaluation gives, to a single-precision bound; then the property's clauses
+    key = "final_f" if kind == "lbfgsb" else "f_est_trace"
+    if kind != "lbfgsb":
+        F0, tol0 = _sample_estimate(alt["name"], alt["fh"], alt["out"][1], alt["rec"].fsamples[0])
+        t0 = float(np.ravel(sa[key])[0])
+        ctx.check(abs(t0 - F0) <= tol0 * (F32 / EPS), "float32-data:trace-starts-at-estimate-of-initial-model", f"{t0!r} vs {F0!r}")
+        _judge_stochastic(ctx, case, a, alt, tolx=F32 / EPS)
+    else:
+        M, M0, info = alt["out"]
+        F1, tol1 = _objective(alt["name"], alt["fh"], M, alt["Xw"], alt["W"])
+        F0, tol0 = _objective(alt["name"], alt["fh"], M0, alt["Xw"], alt["W"])
+        if np.isfinite(F0):
+            ctx.check(F1 <= F0 + (tol0 + tol1) * (F32 / EPS), "float32-data:lbfgsb-never-returns-higher-objective", f"{F1!r} vs {F0!r}")
+
+
+# --------------------------------------------------------------------------
+# class 12: state after a rejected request
+# --------------------------------------------------------------------------
+
+
+class _Boom(Exception):
+    pass
+
+
+class _Fuse:
+    """wraps a callable; raises at its k-th call (once)"""
+
+    def __init__(self, fn, k):
+        self.fn, self.k, self.n, self.armed = fn, k, 0, True
+
+    def __call__(self, *a):
+        self.n += 1
+        if self.armed and self.n >= self.k:
+            self.armed = False
+            raise _Boom("raised by the caller's function")
+        return None if self.fn is None else self.fn(*a)
+
+
+REJ_STOCH = ["mask", "short-model", "handle-raises", "gradient-handle-raises", "bad-init", "bad-objective", "ndarray-data", "sampler-raises"]
+REJ_LBFGSB = ["sparse-data", "short-model", "handle-raises", "callback-raises", "bad-init", "bad-objective", "ndarray-data"]
+LEAVES_MONITOR = ("short-model", "handle-raises", "callback-raises")
+
+
+@st.composite
+def _rejected_solve_case(draw, tier, kind):
+    c = draw(_reuse_case(tier, kind))
+    n = len(c["problems"])
+    rej = REJ_LBFGSB if kind == "lbfgsb" else REJ_STOCH
+    # before every valid solve: 0..2 rejected requests issued to the same optimizer object
+    c["rejected"] = [draw(st.lists(st.sampled_from(rej), min_size=0 if i else 1, max_size=2)) for i in range(n)]
+    c["fuse"] = draw(st.integers(1, 4))
+    c["share_data_and_sampler"] = False
+    c["edit_data_object"] = False
+    if kind == "lbfgsb":
+        c["solver"]["callback"] = True
+    return c
+
+
+def _tensor_state(data):
+    if isinstance(data, ttb.sptensor):
+        return (tuple(int(n) for n in data.shape), np.array(data.subs, copy=True), np.array(data.vals, copy=True))
+    return (tuple(int(n) for n in data.shape), np.array(data.data, copy=True))
+
+
+def _same_state(a, b):
+    return a[0] == b[0] and all(x.shape == y.shape and x.dtype == y.dtype and np.array_equal(x, y) for x, y in zip(a[1:], b[1:]))
+
+
+def _rejected_request(ctx, opt, p, how, fuse, cb):
+    """issue one ill-formed / failing request to the optimizer object; returns whether it was rejected.  The operands
+    (data tensor, factor guess) must be left as they were."""
+    name, X, data, init = _build_problem(p)
+    fh, gh, lb = fg_setup.setup(H.objective(name), None, None)
+    fm = [f.copy() for f in H.build_factors(p)]
+    M0 = ttb.ktensor([f.copy() for f in fm])
+    before = _tensor_state(data)
+    fm_before = [f.copy() for f in fm]
+    stochastic = not isinstance(opt, LBFGSB)
+    extra = (lambda: (GCPSampler(data),)) if stochastic else (lambda: ())
+    try:
+        if how == "mask":
+            ttb.gcp_opt(data, p["rank"], (fh, gh, lb), opt, init=fm, mask=ttb.tensor(np.ones(tuple(p["shape"]))), printitn=0)
+        elif how == "sparse-data":
+            ttb.gcp_opt(data.to_sptensor(), p["rank"], (fh, gh, lb), opt, init=fm, printitn=0)
+        elif how == "bad-init":
+            ttb.gcp_opt(data, p["rank"], (fh, gh, lb), opt, init="zeros", printitn=0)
+        elif how == "bad-objective":
+            ttb.gcp_opt(data, p["rank"], (fh, gh), opt, init=fm, printitn=0)
+        elif how == "ndarray-data":
+            ttb.gcp_opt(X, p["rank"], (fh, gh, lb), opt, init=fm, printitn=0)
+        elif how == "short-model":  # a model with one mode fewer than the data
+            opt.solve(ttb.ktensor([f.copy() for f in fm[:-1]]), data, fh, gh, lb, *extra())
+        elif how == "handle-raises":
+            opt.solve(M0, data, _Fuse(fh, fuse), gh, lb, *extra())
+        elif how == "gradient-handle-raises":
+            opt.solve(M0, data, fh, _Fuse(gh, fuse), lb, *extra())
+        elif how == "sampler-raises":
+            smp = Recorder(GCPSampler(data))
+            smp.gradient_sample = _Fuse(smp.gradient_sample, fuse)
+            opt.solve(M0, data, fh, gh, lb, smp)
+        elif how == "callback-raises":
+            cb.fuse = cb.n + fuse
+            opt.solve(M0, data, fh, gh, lb)
+        rejected = False
+    except Exception:  # noqa: BLE001
+        rejected = True
+    if cb is not None:
+        cb.fuse = None
+    ctx.check(_same_state(before, _tensor_state(data)), "data-tensor-unchanged-by-rejected-request", how)
+    if rejected and how not in ("handle-raises", "gradient-handle-raises", "sampler-raises", "callback-raises", "short-model"):
+        ctx.check(all(np.array_equal(x, y) for x, y in zip(fm, fm_before)), "guess-unchanged-by-rejected-request", how)
+    return rejected
+
+
+class _FusedCounter(_Counter):
+    fuse = None
+
+    def __call__(self, xk):
+        self.n += 1
+        if self.fuse is not None and self.n >= self.fuse:
+            self.fuse = None
+            raise _Boom("raised by the caller's callback")
+
+
+def _rejected_solve_body(ctx, case):
+    """histories on one optimizer object in which valid solves are preceded by requests that are rejected (by gcp_opt's
+    argument checks, or because the model does not fit the data, or because the caller's own function / callback /
+    sampler raises in mid-solve): every valid solve equals the solve of a fresh object, operands are left unchanged"""
+    a = dict(case["solver"])
+    probs = case["problems"]
+    ctx.label("solver-" + a["kind"], f"solves={len(probs)}", "relation-" + case["relation"])
+    cb_shared = _FusedCounter() if a.get("callback") else None
+
+    def mk(cb):
+        if a["kind"] == "lbfgsb":
+            return LBFGSB(**{k: a[k] for k in ("m", "maxiter") if a.get(k) is not None}, callback=cb)
+        return _mk_solver(a)
+
+    with ctx.sut("optimizer-constructor"):
+        shared = mk(cb_shared)
+    nrej = 0
+    for i, (p, seed, rej) in enumerate(zip(probs, case["seeds"], case["rejected"])):
+        for how in rej:
+            ok = _rejected_request(ctx, shared, probs[(i + 1) % len(probs)] if how == "short-model" else p, how, case["fuse"], cb_shared)
+            ctx.label(("rejected-" if ok else "accepted-") + how)
+            nrej += ok
+        cb_fresh = _Counter() if cb_shared is not None else None
+        before = cb_shared.n if cb_shared is not None else 0
+        got = _one_solve(ctx, shared, p, seed, "solve-after-rejected-request" if nrej else "solve-on-object")
+        fresh = _one_solve(ctx, mk(cb_fresh), p, seed, "solve-on-fresh-object")
+        ctx.check(_same_result(got, fresh), "solve-after-rejected-request-equals-fresh-object" if nrej else "solve-equals-fresh-object",
+                  f"solve {i} of {len(probs)} after {nrej} rejected requests")
+        if cb_shared is not None:
+            ctx.check(cb_shared.n - before == cb_fresh.n, "user-callback-called-as-on-fresh-object", f"{cb_shared.n - before} vs {cb_fresh.n}")
+    ctx.nt = nrej >= 1
+
+
+for _k in ("sgd", "adam", "adagrad", "lbfgsb"):
+    cell(f"C13/rejected/{_k}", strategy=(lambda kk: lambda tier: _rejected_solve_case(tier, kk))(_k), quick=40, thorough=400,
+         shards=(2, 8))(_rejected_solve_body)
+
+
+REJ_SAMPLER = ["ctor-stratified-for-dense", "ctor-uniform-with-stratified-count", "ctor-count-not-an-integer", "ctor-unknown-sampler",
+               "draw-from-wrong-holder", "stratified-over-sample-rate-1", "nonzeros-too-many-without-replacement",
+               "zeros-too-many-without-replacement", "uniform-negative-count", "draw-from-tensor-of-other-order"]
+
+
+@st.composite
+def _rejected_sampler_case(draw, tier):
+    c = draw(_gcpsampler_case(tier))
+    c["steps"] = draw(st.lists(st.sampled_from(REJ_SAMPLER + ["draw-f", "draw-g", "draw-g"]), min_size=2, max_size=6)) + ["draw-f", "draw-g"]
+    c["seeds"] = [draw(st.integers(0, 2**31 - 1)) for _ in c["steps"]]
+    return c
+
+
+@cell("C13/rejected/sampler", strategy=_rejected_sampler_case, quick=100, thorough=1000, shards=(1, 4))
+def rejected_sampler(ctx, case):
+    """a GCPSampler and its data tensor go through draws mixed with requests that are rejected (ill-formed sampler
+    configurations for the same data, draws from a tensor of the wrong kind, direct sampler calls that cannot be
+    served): the data is left bit for bit as it was and every later draw equals the draw of a fresh sampler"""
+    A = _dense_of(case)
+    dense = case["holder"] == "dense"
+    shape = tuple(case["shape"])
+
+    def mk_data():
+        return ttb.tensor(H.typed(A, case.get("vdtype")).copy(order="F"), shape) if dense else _build_sp(case)
+
+    def mk_sampler(d):
+        fs = None if case["fs"] is None else getattr(Samplers, case["fs"])
+        gs = None if case["gs"] is None else getattr(Samplers, case["gs"])
+        kw = {} if case.get("over_sample_rate") is None else dict(over_sample_rate=case["over_sample_rate"])
+        return GCPSampler(d, fs, _mk_count(case["fn"]), gs, _mk_count(case["gn"]), case["max_iters"], **kw)
+
+    data = mk_data()
+    ctx.label("holder-" + case["holder"], f"f-{case['fs']}", f"g-{case['gs']}")
+    with ctx.sut("GCPSampler"):
+        shared = mk_sampler(data)
+    other = ttb.tensor(np.asarray(A, dtype=float).copy(order="F"), shape) if not dense else ttb.tensor(A.copy(order="F"), shape).to_sptensor()
+    S = data if not dense else other
+    nnz, nzeros = case["nnz"], case["nzeros"]
+    idx = _nz_idx(case)
+    nrej = 0
+    for how, seed in zip(case["steps"], case["seeds"]):
+        if how.startswith("draw-") and how in ("draw-f", "draw-g"):
+            call = (lambda s_, d_: s_.function_sample(d_)) if how == "draw-f" else (lambda s_, d_: s_.gradient_sample(d_))
+            # (class 13: the shared sampler draws with the root logger at DEBUG for odd seeds - the zero sampler logs)
+            with _LogEnv("debug" if seed % 2 else "untouched"):
+                got = _draw_or_raise(lambda: call(shared, data), seed)
+            with ctx.sut("GCPSampler"):
+                d2 = mk_data()
+                fresh = mk_sampler(d2)
+            want = _draw_or_raise(lambda: call(fresh, d2), seed)
+            ctx.check(_same_sample(got, want), "draw-after-rejected-request-equals-draw-of-fresh-sampler" if nrej else "draw-equals-draw-of-fresh-sampler", how)
+            continue
+        before = _tensor_state(data)
+        np.random.seed(seed)
+        try:
+            if how == "ctor-stratified-for-dense":
+                GCPSampler(data if dense else other, Samplers.STRATIFIED)
+            elif how == "ctor-uniform-with-stratified-count":
+                GCPSampler(data, Samplers.UNIFORM, StratifiedCount(num_nonzeros=2, num_zeros=2))
+            elif how == "ctor-count-not-an-integer":
+                GCPSampler(data, None, 2.5, None, "3")
+            elif how == "ctor-unknown-sampler":
+                GCPSampler(data, "uniform", 3, 7, 3)
+            elif how == "draw-from-wrong-holder":
+                shared.function_sample(other)
+                shared.gradient_sample(other)
+            elif how == "draw-from-tensor-of-other-order":
+                o2 = ttb.tensor(np.ones(shape + (2,)))
+                shared.gradient_sample(o2 if dense else o2.to_sptensor())
+            elif how == "stratified-over-sample-rate-1":
+                samplers.stratified(S, idx, 2, 2, 1.0)
+            elif how == "nonzeros-too-many-without-replacement":
+                samplers.nonzeros(S, nnz + 2, with_replacement=False)
+            elif how == "zeros-too-many-without-replacement":
+                samplers.zeros(S, idx, nzeros + 1, with_replacement=False)
+            elif how == "uniform-negative-count":
+                samplers.uniform(data, -2)
+            rejected = False
+        except Exception:  # noqa: BLE001
+            rejected = True
+        nrej += rejected
+        ctx.label(("rejected-" if rejected else "accepted-") + how)
+        ctx.check(_same_state(before, _tensor_state(data)), "data-tensor-unchanged-by-rejected-request", how)
+    ctx.nt = nrej >= 1
+    ctx.check(np.array_equal(np.asarray(ref.den(data), dtype=float), A), "sampler-leaves-data")
+
+
 PREDICATES = {
     "zeros_requested_and_exist": lambda case: case.get("num_zeros", 0) > 0 and case.get("nzeros", 0) > 0,
     "gcp_sparse_with_zeros": lambda case: case.get("holder") == "sparse" and case.get("nzeros", 0) > 0,
@@ -1508,5 +2233,14 @@ PREDICATES = {
     # requested zeros x number of entries does not fit a signed 64-bit integer (the number of entries itself does)
     "huge_zero_request_overflows": lambda case: "shape" in case and _cells(case) < 2**63 and (
         (min(case.get("nnz", 1), _cells(case)) if case.get("kind") == "gcp-default" else case.get("num_zeros", 0)) * _cells(case) >= 2**63),
+    # round 4
+    "numpy_int_count_given": lambda case: "cnt_dtype" in case and (isinstance(case.get("fn"), int) or isinstance(case.get("gn"), int)),
+    "uint64_subs": lambda case: case.get("subs_dtype") == "uint64" and case.get("holder") == "sparse",
+    "lbfgsb_solve_raised_before": lambda case: case["solver"]["kind"] == "lbfgsb" and any(
+        h in LEAVES_MONITOR for r in case.get("rejected", []) for h in r),
+    # zero samples requested as a NumPy scalar: int32 cannot hold the number of cells; int64 x cells wraps beyond 2**63
+    "huge_zero_count_as_numpy_scalar": lambda case: "shape" in case and case.get("kind") in ("stratified", "gcp-counts")
+    and case.get("num_zeros", 0) > 0 and (case.get("cnt_dtype") == "int32" or (
+        case.get("cnt_dtype") == "int64" and case.get("num_zeros", 0) * _cells(case) >= 2**63)),
     "sizes_differ": lambda case: len({(tuple(p["shape"]), p["rank"]) for p in case["problems"]}) > 1,
 }
